@@ -137,7 +137,7 @@ def run_vector(vec):
                         if flagged != set(want):
                             problems.append(tag + step + f"{{C02}} check_flows(exceptions={exc}) flagged {sorted(flagged)}, the specification says {sorted(want)}")
                 # ---- exports of this state, projected to rows and compared with the system's own arrays (checked above)
-                for _ in range(4):
+                for _ in range(3):
                     P.events = []
                     P.do_export()
                     ev = P.events[-1]
